@@ -325,6 +325,18 @@ def gen_c18w(tier: str, rng: random.Random) -> Iterator[Dict[str, Any]]:
                     steps += [dt(CFG["graceful"] + CFG["shutdown_to"] + 1500)]
                     yield script("c18w/mr%d/j%d/%s" % (mr, jit, layout), steps, seed=seed,
                                  max_requests=mr, jitter=jit, ka=60000)
+    # requests that arrive as h2c upgrades (each becomes stream 1 of a new HTTP/2 connection) count like any
+    # other, alone and mixed with plain requests
+    for mr in (1, 2, 5):
+        for mix in ("all-upgraded", "alternating"):
+            total = mr + 3
+            steps = []
+            for k in range(total):
+                steps.append(connect(k + 1))
+                up = mix == "all-upgraded" or k % 2 == 0
+                steps += [send(k + 1, "q%d" % (k + 1), **({"upgrade": "h2c"} if up else {})), dt(10)]
+            steps += [dt(CFG["graceful"] + CFG["shutdown_to"] + 1500)]
+            yield script("c18w/mr%d/h2c-%s" % (mr, mix), steps, max_requests=mr, ka=60000)
     # requests in progress while the limit is crossed (counted when taken on, not when finished)
     for mr in (1, 2):
         apps = {"q1": slow(500), "q2": slow(500), "q3": slow(500), "q4": slow(500)}
